@@ -250,3 +250,15 @@ package cluster
 //@   ensures [the-write_s-own-answer] result0 == ret("Conn).Write") && result1 == ret1("Conn).Write")
 //@   noeffect Conn).Write
 //@   assigns conn.live
+
+// ---- C19 / C10 / C09: how memberlist is configured. The packet buffer is the gossip packet size the oversize threshold
+// is derived from (an update counts as small when it is at most half of it, so every small update fits a packet), the
+// peer's delegate receives both the messages and the membership events, and full-state exchange uses the given interval.
+//@ func Create
+//@   props C19 C10 C09
+//@   nosafe
+//@   abstract
+//@   at call memberlist.Create assert [packet-buffer-matches-the-oversize-threshold] arg0 != nil && arg0.UDPBufferSize == MaxGossipPacketSize && arg0.PushPullInterval == pushPullInterval
+//@   at call memberlist.Create assert [the-peer_s-delegate-gets-messages-and-events] arg0.Delegate == arg0.Events && arg0.Delegate == arg0.Ping
+//@   after call memberlist.DefaultLANConfig assume res0 != nil
+//@   noeffect Peer).setInitialFailed NewTLSTransport newDelegate
